@@ -720,8 +720,125 @@ def oracle_eigen(c):
     return _dedupe(v)
 
 
+# ==========================================================================================
+# oracle 8: histories on one object, caller-side re-use of argument arrays, calling conventions, interleaved objects.
+# Reference = a FRESH object given the final configuration (copies of every argument).
+def gen_history_case(rng):
+    eps, _ = gen_eps(rng)
+    eps2, _ = gen_eps(rng)
+    r, _ = gen_radii(rng)
+    return {'kind': 'history', 'cM1': gen_cubic(rng), 'cM2': gen_cubic(rng), 'cP': gen_cubic(rng), 'R1': gen_rot(rng, 'random'), 'R2': gen_rot(rng, 'random'),
+            'eps': eps, 'eps2': eps2, 'r': r, 's': float(10 ** rng.uniform(-1, 1)), 'e': float(10 ** rng.uniform(-3, -1.5)),
+            'shape': str(rng.choice(['ellipsoid', 'ellipsoid', 'sphere', 'cube']))}
+
+
+def _fresh_energy(shape, cM, cP, RM, RP, eps, r):
+    se = quiet(make_se, shape, list(cM), None if cP is None else list(cP), None if RM is None else np.array(RM).copy(),
+               None if RP is None else np.array(RP).copy(), np.array(eps, dtype=float).copy().tolist(), 'low' if shape == 'ellipsoid' else None)
+    return float(quiet(se.compute, np.array(r, dtype=float)))
+
+
+def oracle_history(c):
+    from kawin.precipitation import StrainEnergy
+    v = []
+    shape = c['shape']
+    q = 'low' if shape == 'ellipsoid' else None
+    r = np.array(c['r'], dtype=float)
+    tol = 1e-10
+
+    def cmp(clause, cls, got, want, what):
+        if not (math.isfinite(got) and rel(got, want) <= tol):
+            v.append((clause, cls, '%s: the object gives %r, a fresh object with the same final configuration gives %r (shape %s)' % (what, got, want, shape)))
+    try:
+        # ---- one object, setters between computes ------------------------------------------------------
+        se = quiet(make_se, shape, c['cM1'], None, c['R1'], None, c['eps'], q)
+        quiet(se.compute, r)
+        se.setElasticConstants(*c['cM2'])
+        cmp('history_independent', 'matrix stiffness changed between two calls', float(quiet(se.compute, r)),
+            _fresh_energy(shape, c['cM2'], None, c['R1'], None, c['eps'], r), 'compute, setElasticConstants, compute')
+        se.setRotationMatrix(np.array(c['R2']))
+        cmp('history_independent', 'matrix rotation changed between two calls', float(quiet(se.compute, r)),
+            _fresh_energy(shape, c['cM2'], None, c['R2'], None, c['eps'], r), 'compute, setRotationMatrix, compute')
+        cmp('history_independent', 'same object at another size', float(quiet(se.compute, c['s'] * r)),
+            _fresh_energy(shape, c['cM2'], None, c['R2'], None, c['eps'], c['s'] * r), 'compute(r), compute(s r)')
+        se.setElasticConsantsPrecipitate(*c['cP'])
+        cmp('history_independent', 'precipitate stiffness set between two calls', float(quiet(se.compute, r)),
+            _fresh_energy(shape, c['cM2'], c['cP'], c['R2'], None, c['eps'], r), 'compute, setElasticConsantsPrecipitate, compute')
+        se.setEigenstrain(np.array(c['eps2']))
+        cmp('history_independent', 'eigenstrain changed between two calls', float(quiet(se.compute, r)),
+            _fresh_energy(shape, c['cM2'], c['cP'], c['R2'], None, c['eps2'], r), 'compute, setEigenstrain, compute')
+        # ---- arrays the caller re-uses after the call ---------------------------------------------------------
+        def fresh():
+            x = StrainEnergy(shape)
+            if q is not None:
+                set_quadrature(x.description, q)
+            return x
+        for which in ('matrix', 'precipitate'):
+            buf = np.array(c['R1'], dtype=float)
+            x = fresh()
+            (x.setRotationMatrix if which == 'matrix' else x.setRotationPrecipitate)(buf)
+            if not np.array_equal(buf, np.array(c['R1'])):
+                v.append(('argument_unchanged', which + ' rotation', 'the rotation array passed to the setter was modified'))
+            buf[:] = np.array(c['R2'])                 # the caller re-uses its buffer
+            x.setElasticConstants(*c['cM1'])
+            x.setElasticConsantsPrecipitate(*c['cP'])
+            x.setEigenstrain(np.array(c['eps']))
+            cmp('argument_reuse', which + ' rotation array overwritten by the caller after the call', float(quiet(x.compute, r)),
+                _fresh_energy(shape, c['cM1'], c['cP'], c['R1'] if which == 'matrix' else None, c['R1'] if which == 'precipitate' else None, c['eps'], r),
+                'set%s(buf); buf[:] = other; stiffness setters; compute' % ('RotationMatrix' if which == 'matrix' else 'RotationPrecipitate'))
+        tbuf = cubic_c2(*c['cM1'])
+        x = fresh()
+        x.setElasticTensor(tbuf)
+        tbuf *= 2.0
+        x.setRotationMatrix(np.array(c['R1']))
+        ebuf = np.array(c['eps'], dtype=float)
+        x.setEigenstrain(ebuf)
+        ebuf *= 3.0
+        rbuf = r.copy()
+        got = float(quiet(x.compute, rbuf))
+        if not np.array_equal(rbuf, r):
+            v.append(('argument_unchanged', 'radius', 'the radius array passed to compute was modified'))
+        cmp('argument_reuse', 'stiffness / eigenstrain arrays overwritten by the caller after the call', got,
+            _fresh_energy(shape, c['cM1'], None, c['R1'], None, c['eps'], r), 'setElasticTensor(buf); buf *= 2; setEigenstrain(ebuf); ebuf *= 3; compute')
+        # ---- calling conventions ------------------------------------------------------------------------------
+        e = c['e']
+        want = _fresh_energy(shape, c['cM1'], None, None, None, (np.eye(3) * e).tolist(), r)
+        for nm, val in (('python float', e), ('numpy scalar', np.float64(e)), ('0-d array', np.array(e)), ('list of 3', [e, e, e]), ('tuple of 3', (e, e, e)),
+                        ('1-d array', np.array([e, e, e])), ('3x3 array', np.eye(3) * e)):
+            x = fresh()
+            x.setElasticConstants(*c['cM1'])
+            x.setEigenstrain(val)
+            cmp('calling_convention', 'eigenstrain given as ' + nm, float(quiet(x.compute, r)), want, 'setEigenstrain(%s)' % nm)
+        x = fresh()
+        x.setElasticConstants(*c['cM1'])
+        x.setEigenstrain(e)
+        for nm, val in (('list', [float(z) for z in r]), ('tuple', tuple(float(z) for z in r)), ('1x3 array', r.reshape(1, 3))):
+            cmp('calling_convention', 'radii given as ' + nm, float(quiet(x.compute, val)), want, 'compute(%s)' % nm)
+        both = np.atleast_1d(quiet(x.compute, np.array([r, c['s'] * r])))
+        if both.shape != (2,) or rel(float(both[0]), want) > tol or rel(float(both[1]), c['s'] ** 3 * want) > 1e-9:
+            v.append(('calling_convention', 'two radii triples in one call', 'compute([[r], [s r]]) = %r, single calls give %r and s^3 times that' % (both.tolist(), want)))
+        ints = [int(round(z / 1e9)) * 10 ** 9 for z in c['cM1']]
+        x1, x2 = fresh(), fresh()
+        x1.setElasticConstants(*ints)
+        x2.setElasticConstants(*[float(z) for z in ints])
+        x1.setEigenstrain(e)
+        x2.setEigenstrain(e)
+        cmp('calling_convention', 'integer elastic constants', float(quiet(x1.compute, r)), float(quiet(x2.compute, r)), 'setElasticConstants(int, int, int)')
+        # ---- two objects used interleaved ---------------------------------------------------------------------------
+        a = quiet(make_se, shape, c['cM1'], None, c['R1'], None, c['eps'], q)
+        b = quiet(make_se, shape, c['cM2'], c['cP'], c['R2'], c['R1'], c['eps2'], q)
+        quiet(a.compute, r)
+        quiet(b.compute, c['s'] * r)
+        b.setElasticConstants(*c['cM1'])
+        cmp('instances_independent', 'two objects interleaved', float(quiet(a.compute, r)), _fresh_energy(shape, c['cM1'], None, c['R1'], None, c['eps'], r), 'a.compute; b.compute; b.setElasticConstants; a.compute')
+        cmp('instances_independent', 'two objects interleaved (second)', float(quiet(b.compute, r)), _fresh_energy(shape, c['cM1'], c['cP'], c['R2'], c['R1'], c['eps2'], r), 'b after a')
+    except Exception as ex:
+        v.append(('no_internal_error', 'exception', 'setter / compute history raised %s: %s' % (type(ex).__name__, ex)))
+    return _dedupe(v)
+
+
 ORACLES = {'energy': oracle_energy, 'iso': oracle_iso, 'lebedev': oracle_lebedev, 'moduli': oracle_moduli,
-           'convert': oracle_convert, 'order': oracle_order, 'eigen': oracle_eigen}
+           'convert': oracle_convert, 'order': oracle_order, 'eigen': oracle_eigen, 'history': oracle_history}
 
 
 def evaluate_case(c):
@@ -737,6 +854,7 @@ def gen_search(rng, quick, budget=1.0):
     cases += [gen_convert_case(rng) for _ in range(n(15, 300))]
     cases += [gen_order_case(rng) for _ in range(n(15, 300))]
     cases += [gen_eigen_case(rng) for _ in range(n(8, 150))]
+    cases += [gen_history_case(rng) for _ in range(n(8, 150))]
     return cases
 
 
